@@ -286,6 +286,121 @@ theorem remove_ok (s : Shard) (h : ShardOk s) (net : Net) (src : Source) (rpid :
           subst this
           exact ⟨_, (mem_replaceNet _ _ _ _).mpr (Or.inr ⟨rfl, x, hx, rfl⟩), rfl, rfl⟩
 
+/-! ### `Table::drop` (peer down) -/
+
+theorem dropDest_fst (addr : Addr) (d d' : Dest) (h : (dropDest addr d).1 = some d') : d'.net = d.net ∧ d'.id = d.id := by
+  simp only [dropDest] at h
+  split at h
+  · simp only [Option.some.injEq] at h; subst h; exact ⟨rfl, rfl⟩
+  · split at h
+    · split at h
+      · cases h
+      · simp only [Option.some.injEq] at h; subst h; exact ⟨rfl, rfl⟩
+    · split at h
+      · cases h
+      · simp only [Option.some.injEq] at h; subst h; exact ⟨rfl, rfl⟩
+
+theorem dropDest_snd (addr : Addr) (d : Dest) (ch : Change Net) (h : (dropDest addr d).2 = some ch) :
+    ch.net = d.net ∧ ch.destId = d.id ∧ ((dropDest addr d).1 = none → ch.paths = []) := by
+  by_cases c1 : (!d.entries.any (fun e => e.path.src.addr = addr)) = true
+  · simp only [dropDest, c1, if_true] at h; cases h
+  · by_cases c2 : (!d.entries.any (fun e => e.path.src.addr = addr && !e.filtered && !e.nhInvalid)) = true
+    · simp only [dropDest, c1, c2, if_true, if_false, Bool.false_eq_true] at h; cases h
+    · by_cases c3 : (d.entries.filter (fun e => e.path.src.addr ≠ addr)).isEmpty = true
+      · simp only [dropDest, c1, c2, c3, if_true, if_false, Bool.false_eq_true, Option.some.injEq] at h ⊢
+        subst h; exact ⟨rfl, rfl, fun _ => rfl⟩
+      · simp only [dropDest, c1, c2, c3, if_false, Bool.false_eq_true, Option.some.injEq] at h ⊢
+        subst h; exact ⟨rfl, rfl, fun hn => by cases hn⟩
+
+theorem filterMap_map_sublist {α β} (f : α → Option α) (g : α → β) (hf : ∀ x y, f x = some y → g y = g x) (l : List α) :
+    ((l.filterMap f).map g).Sublist (l.map g) := by
+  induction l with
+  | nil => simp
+  | cons a rest ih =>
+    simp only [List.filterMap_cons]
+    cases hfa : f a with
+    | none => simp only [List.map_cons]; exact List.Sublist.cons _ ih
+    | some b => simp only [List.map_cons, hf a b hfa]; exact List.Sublist.cons_cons _ ih
+
+/-- `destid_stable`, peer down: the table stays consistent; a prefix that keeps paths keeps its id;
+    an id is released only for a prefix that lost all its paths; every emitted change names the id
+    of its prefix, and the change for a prefix that is gone carries no paths -/
+theorem drop_ok (s : Shard) (h : ShardOk s) (addr : Addr) :
+    ShardOk (s.drop addr).1 ∧
+    (∀ d' ∈ (s.drop addr).1.dests, ∃ d ∈ s.dests, d'.net = d.net ∧ d'.id = d.id) ∧
+    (∀ d ∈ s.dests, (dropDest addr d).1 ≠ none → ∃ d' ∈ (s.drop addr).1.dests, d'.net = d.net ∧ d'.id = d.id) ∧
+    (∀ ch ∈ (s.drop addr).2, ∃ d ∈ s.dests, ch.net = d.net ∧ ch.destId = d.id ∧
+       ((∀ d' ∈ (s.drop addr).1.dests, d'.net ≠ d.net) → ch.paths = [])) := by
+  have hkept : (s.dests.map (dropDest addr)).filterMap (·.1) = s.dests.filterMap (fun d => (dropDest addr d).1) := by
+    rw [List.filterMap_map]; rfl
+  have hchs : (s.dests.map (dropDest addr)).filterMap (·.2) = s.dests.filterMap (fun d => (dropDest addr d).2) := by
+    rw [List.filterMap_map]; rfl
+  have hmemK : ∀ d', d' ∈ s.dests.filterMap (fun d => (dropDest addr d).1) ↔ ∃ d ∈ s.dests, (dropDest addr d).1 = some d' := by
+    intro d'; simp [List.mem_filterMap]
+  have hsrc : ∀ d' ∈ s.dests.filterMap (fun d => (dropDest addr d).1), ∃ d ∈ s.dests, d'.net = d.net ∧ d'.id = d.id := by
+    intro d' hd'
+    obtain ⟨d, hd, hf⟩ := (hmemK d').mp hd'
+    exact ⟨d, hd, dropDest_fst addr d d' hf⟩
+  have hmod : ∀ d ∈ s.dests, ∀ l ∈ s.used, d.id = destId s.idx l → d.id % 16777216 = l := by
+    intro d _ l hl hdi
+    rw [hdi]; simp only [destId]
+    have := h.small l hl
+    omega
+  simp only [Shard.drop, ShardOk, hkept, hchs]
+  refine ⟨⟨?_, ?_, ?_, ?_, ?_⟩, hsrc, ?_, ?_⟩
+  · exact List.Nodup.sublist (filterMap_map_sublist _ (·.net) (fun x y hxy => (dropDest_fst addr x y hxy).1) _) h.nets
+  · exact List.Nodup.sublist (filterMap_map_sublist _ (·.id) (fun x y hxy => (dropDest_fst addr x y hxy).2) _) h.ids
+  · intro d' hd'
+    obtain ⟨d, hd, hn, hi⟩ := hsrc d' hd'
+    obtain ⟨l, hl, hdi⟩ := h.own d hd
+    refine ⟨l, List.mem_filter.mpr ⟨hl, ?_⟩, by rw [hi]; exact hdi⟩
+    simp only [Bool.not_eq_true', List.contains_eq_mem, decide_eq_false_iff_not, List.mem_map, List.mem_filter, not_exists, not_and]
+    intro d2 hd2 hl2
+    have h2 := hd2.2
+    simp only [Bool.not_eq_true', List.any_eq_false, decide_eq_true_eq] at h2
+    -- `d2` holds the same local id, hence is `d`, whose prefix is kept
+    obtain ⟨l2, hl2', hd2i⟩ := h.own d2 hd2.1
+    have : d2.id % 16777216 = l2 := hmod d2 hd2.1 l2 hl2' hd2i
+    rw [this] at hl2; subst hl2
+    have hdd : d2 = d := uniq_of_nodup_map (·.id) s.dests h.ids hd2.1 hd (hd2i.trans hdi.symm)
+    rw [hdd] at h2
+    exact h2 d' hd' hn
+  · intro l hl
+    obtain ⟨hlu, hlf⟩ := List.mem_filter.mp hl
+    obtain ⟨d, hd, hdi⟩ := h.back l hlu
+    simp only [Bool.not_eq_true', List.contains_eq_mem, decide_eq_false_iff_not, List.mem_map, List.mem_filter, not_exists, not_and] at hlf
+    have hkeep : ¬ (∀ d' ∈ s.dests.filterMap (fun d => (dropDest addr d).1), d'.net ≠ d.net) := by
+      intro hall
+      apply hlf d ⟨hd, ?_⟩ (hmod d hd l hlu hdi)
+      simp only [Bool.not_eq_true', List.any_eq_false, decide_eq_true_eq]
+      exact hall
+    have : ∃ d' ∈ s.dests.filterMap (fun d => (dropDest addr d).1), d'.net = d.net := by
+      apply Classical.byContradiction
+      intro hne
+      apply hkeep
+      intro d' hd' heq
+      exact hne ⟨d', hd', heq⟩
+    obtain ⟨d', hd', hn⟩ := this
+    obtain ⟨d3, hd3, hn3, hi3⟩ := hsrc d' hd'
+    have : d3 = d := uniq_of_nodup_map (·.net) s.dests h.nets hd3 hd (hn3.symm.trans hn)
+    exact ⟨d', hd', by rw [hi3, this]; exact hdi⟩
+  · intro l hl; exact h.small l (List.mem_filter.mp hl).1
+  · intro d hd hne
+    cases hf : (dropDest addr d).1 with
+    | none => exact absurd hf hne
+    | some d' => exact ⟨d', (hmemK d').mpr ⟨d, hd, hf⟩, dropDest_fst addr d d' hf⟩
+  · intro ch hch
+    simp only [List.mem_filterMap] at hch
+    obtain ⟨d, hd, hf⟩ := hch
+    obtain ⟨h1, h2, h3⟩ := dropDest_snd addr d ch hf
+    refine ⟨d, hd, h1, h2, ?_⟩
+    intro hall
+    apply h3
+    cases hf1 : (dropDest addr d).1 with
+    | none => rfl
+    | some d' =>
+      exact absurd (dropDest_fst addr d d' hf1).1 (hall d' ((hmemK d').mpr ⟨d, hd, hf1⟩))
+
 /-- the empty table -/
 theorem init_ok (idx : Nat) : ShardOk { idx := idx } := by
   refine ⟨by simp, by simp, ?_, ?_, ?_⟩
